@@ -70,6 +70,17 @@ class MGen:
                               r.choice([0, 250000]), tzinfo=tz)
         fra = self.fra()
         invs = [self.fra() for _ in range(r.randint(0, 3))]
+        # the same effective call recorded again in another calling convention (positional arguments spelled as keywords):
+        # equal as a key, but a different record
+        for x in list(invs):
+            if x.args and r.random() < 0.5:
+                names = list(x.fn_reference.parameter_names)
+                if x.fn_reference.partial_args:
+                    names = names[len(x.fn_reference.partial_args):]
+                names = [n for n in names if n not in (x.fn_reference.partial_kwargs or {})]
+                kw = dict(zip(names, x.args))
+                kw.update(x.kwargs or {})
+                invs.insert(r.randrange(len(invs) + 1), self.FRA(x.fn_reference, (), kw, x.context_args))
         ress = [self.RH(resource_type=r.choice(["file", "s3"]), url=r.choice(["file:///a/b", "s3://bucket/k#1", "é"]),
                         version=r.choice(["v1", None, "2#3"])) for _ in range(r.randint(0, 2))]
         deps = {x.fn_reference for x in [fra] + invs}
